@@ -118,7 +118,7 @@ def RenderOp.ok (w : World) : RenderOp → Prop
 
 /-- One content-building step on the world (the operations of `atable.go`, `row.go`,
     `properties.go` as the model has them); item ids refer to the world's item store. -/
-inductive BuildOp
+inductive ContentOp
   | newRow                                              -- `tabular.NewRow()`
   | rowAdd (r item : Nat)                               -- `row.Add(NewCell(item))`
   | addRow (t r : Nat)                                  -- `t.AddRow(row)`
@@ -130,7 +130,7 @@ inductive BuildOp
   | addErr (tk : Taker) (e : Nat)                       -- `AddError(e)`
   | register (o : Target) (tm : Time) (tg : World.CbTarget) (cb : Cb)  -- `RegisterPropertyCallback`
 
-def BuildOp.run (dw : Measure) (w : World) : BuildOp → World
+def ContentOp.run (dw : Measure) (w : World) : ContentOp → World
   | .newRow => (w.newRow {}).1
   | .rowAdd r i => w.rowAdd dw r i
   | .addRow t r => w.addRow dw t r
@@ -144,7 +144,7 @@ def BuildOp.run (dw : Measure) (w : World) : BuildOp → World
 
 /-- the step does not itself register a render-time cell callback on table `t` (the one list a
     wrap appends to; such registrations commute with a wrap only up to the order of that list) -/
-def BuildOp.okFor (t : Nat) : BuildOp → Prop
+def ContentOp.okFor (t : Nat) : ContentOp → Prop
   | .register (.table t') .render .cell _ => t' ≠ t
   | _ => True
 
